@@ -30,8 +30,8 @@ def truth_from_traces(read_lines, check_lines):
         if e["e"] == "Next":
             if e["id"] == "":
                 break
-            path = bytes.fromhex(e["path"]) if e.get("path") else b""
-            tgt = bytes.fromhex(e["target"]) if e.get("target") is not None else None
+            path = bytes.fromhex(e["path"]) if e.get("path") not in (None, "~") else b""
+            tgt = bytes.fromhex(e["target"]) if e.get("target") not in (None, "~") else None
             meth = bytes.fromhex(e["method"]).decode("latin1")
             if e["isdir"]:
                 kind = "dir" if tgt is None else ("dlink" if _dangerous(tgt) else "slink")
